@@ -33,8 +33,8 @@ RULE = (
   "distinct = hash of spec"
 )
 BOUNDS = {
-  "quick": "trees N<=2 (all joint assignments), 7 tendon families x 2 joint sets, C28 generic family T=3 (no extra edge), sink A-D, unsupported list; nworld=2",
-  "thorough": "trees N<=3, tendon families x 18 joint sets, C28 generic family with extra edges, sink A-D, unsupported list; nworld=3",
+  "quick": "trees N<=2 (all joint assignments), 7 tendon families x 2 joint sets, C28 generic family T=3 (no extra edge), sink A-D, 5 flex models, unsupported list (11 features + 17 enum/flag values); nworld=2",
+  "thorough": "trees N<=3, tendon families x 18 joint sets, C28 generic family with extra edges, sink A-D, 5 flex models, unsupported list; nworld=3",
 }
 ASSUMPTIONS = [
   "'MuJoCo fields' of Model = dataclass fields with a same-named attribute on MjModel/MjOption/MjStatistic",
@@ -124,6 +124,9 @@ def scenarios(tier, seed):
   for var in "ABCD":
     out.append(dict(fam="sink", scene=var, variant=v, idx=i, nworld=nworld))
     i += 1
+  for shape, dof, feat, col in (("1d3", "full", "edgeeq", "plane"), ("2d33", "full", "edgeeq", "plane"), ("2d33", "2d", "damping", "sphere"), ("3d222", "trilinear", "straineq", "sphere"), ("3d222", "full", "elasticity", "plane")):
+    out.append(dict(fam="flex", c40=dict(shape=shape, dof=dof, feature=feat, collision=col, variant=v), variant=v, idx=i, nworld=nworld))
+    i += 1
   for name in UNSUPPORTED:
     out.append(dict(fam="unsupported", feature=name, variant=v))
   for name in POKES:
@@ -207,6 +210,10 @@ def build(scn):
     from mc.refs import sink
 
     return sink.xml(scn["scene"]), None
+  if fam == "flex":
+    from mc.props import c40
+
+    return c40.build_xml(scn["c40"]), None
   if scn.get("poke"):
     pre, world, post = "", "", POKES[scn["feature"]][0]
   else:
@@ -374,6 +381,8 @@ def reference_data(mjm, joints, variant, which):
       mjd.qpos[:], mjd.qvel[:] = q, v
     else:
       mjd.qvel[:] = 0.3 * np.cos(np.arange(mjm.nv) + which)
+      if mjm.nflex:
+        mjd.qpos[:] = mjm.qpos0 + 0.02 * np.sin(1.7 * np.arange(mjm.nq) + which)
   k = np.arange(1, 200, dtype=np.float64)
   mjd.ctrl[:] = 0.3 * np.sin(k[: mjm.nu] + which)
   mjd.act[:] = 0.1 * np.cos(k[: mjm.na])
